@@ -33,6 +33,7 @@ type Exec struct {
 	bounded   int
 	inlineDepthNow int
 	cbs       map[int]*cbInfo
+	ranFns    map[*ssa.Function]bool
 }
 
 // cbInfo: a callback that a callee invokes repeatedly (`calls P loop`): the
